@@ -40,6 +40,13 @@ def run(ctx):
            f'descriptor {desc}: get_type() returns the keyword as spelled (inner whitespace / case kept)')
     check_cte_comments(ctx)
     from .. import rules_base as RB
+    # the CTE walk relies on the CTE bodies being Parenthesis groups whatever the size of the statement
+    from .. import rules_tree as RT2
+    ctx.rule('R18.6', 'parentheses are grouped in statements of any size: no size/depth cut-off in the matching driver', floor=1)
+    RT2.check_no_cutoff(ctx, 'R18.6', only={'_group_matching'})
+    from .. import rules_lexer as RL_
+    ctx.rule('R18.S', 'Lexer.get_tokens interpreted on short texts agrees token by token with the rule-table model the other rules use', floor=1)
+    RL_.check_scan_semantics(ctx, 'R18.S')
     ctx.rule('R18.B', 'base model: containment, flags, Token.match, imt and token_first/token_next behave as the abstract evaluation assumes', floor=1)
     RB.check_base_model(ctx, 'R18.B', parts=('contains', 'flags', 'match', 'imt', 'nav'))
 
